@@ -192,8 +192,9 @@ def inject(case):
         mon.arm()
         if not os.path.exists(rf) and not os.path.exists(rf + ".old"):
             res["no_checkpoint"] = True
-            # only the importance sampler interrupted before its first iteration boundary may legitimately have nothing to resume from
-            if not (ins and snap.get("it", 0) == 0):
+            # only the importance sampler interrupted before its first iteration-boundary checkpoint has been written may legitimately have nothing to resume
+            # from (its handler cannot checkpoint mid-iteration): i.e. no resume file existed at the instant of the signal either
+            if not (ins and snap.get("sha_before") is None):
                 problems.append(("handler-left-no-checkpoint", dict(sampler=case["sampler"], interrupted_at_iteration=snap.get("it"))))
         fs2 = FlowSampler(model2, output=out, resume=True, importance_nested_sampler=ins, signal_handling=False, **kw)
         ns = fs2.ns
@@ -322,6 +323,7 @@ def multi(case):
                                 fired[0] = True
                                 sys.settrace(None)
                                 new_snap["it"] = int(fs.ns.iteration)
+                                new_snap["had_checkpoint"] = os.path.exists(rf)
                                 if not ins:
                                     new_snap["pts"] = points_of(fs.ns, names)
                                 fs.safe_exit(case.get("signum", 15), frame)
@@ -347,7 +349,7 @@ def multi(case):
                 if not finished:
                     res["delivered"] += 1
                     snap = new_snap
-                    if not os.path.exists(rf) and not (ins and new_snap.get("it", 0) == 0):
+                    if not os.path.exists(rf) and not (ins and not new_snap.get("had_checkpoint")):
                         problems.append(("handler-left-no-checkpoint", dict(segment=seg, interrupted_at_iteration=new_snap.get("it"))))
                     continue
                 # ---- the run finished (possibly before a later interruption point was reached)
